@@ -314,6 +314,14 @@ func c06Classify(proc string, vpn bool, data []byte) c06Verdict {
 		}
 	}
 	clean := !tso && len(p.Problems) == 0 && (p.IP == nil || (p.IP.FragOff == 0 && p.IP.Flags&1 == 0))
+	// malformed IPv4 / TCP options (an option kind without or with an impossible length): the header
+	// chain is there but not well-formed; a decoder may refuse the frame
+	if p.IP != nil && pktcodec.TCPOptionsWellFormed(p.IP.Options) != nil {
+		clean = false
+	}
+	if p.TCP != nil && pktcodec.TCPOptionsWellFormed(p.TCP.Options) != nil {
+		clean = false
+	}
 	switch proc {
 	case "arp":
 		if p.ARP == nil || p.ARP.HType != 1 || p.ARP.PType != pktcodec.EtherTypeIPv4 || p.ARP.HLen != 6 || p.ARP.PLen != 4 {
